@@ -371,7 +371,7 @@ def create_tree_model(id_: str, taxa: dict, arg):
             newick = newick.strip()
 
     kwargs = {}
-    if arg.keep or arg.heights_init == "tree":
+    if arg.keep or arg.heights_init == "tree" or arg.brlens_init == "tree":
         kwargs["keep_branch_lengths"] = True
 
     if arg.clock is not None:
